@@ -40,7 +40,7 @@ Calibration on the unchanged tree (R5), what was changed against the first versi
     rewinds it to the interval start; not separately observed).
   * genuine as the statement stands (kept, fingerprints carry integrator, tol and size class):
     -cvode with -cvode_order 2 at -tol <= 1e-8 misses the closed form of a single calculation by 100..600 x tol.
-Fingerprint = relation + integrator option + tolerance (+ size class '1e2..1e3xtol' | '>=1e3xtol'); rate family, kT and
+Fingerprint = relation + integrator option + tolerance (+ size class '1e2..1e3xtol' | '1e3..1e4xtol' | '>=1e4xtol'); rate family, kT and
 context are in the explanation.
 """
 import math
@@ -418,10 +418,10 @@ def judge(case, runs, refs):
 
 
 def decade(ratio):
-    """Size class of an error expressed in units of tol: '1e2..1e3xtol' (a few hundred tol) or '>=1e3xtol' (gross).
+    """Size class of an error expressed in units of tol: '1e2..1e3xtol' (a few hundred tol), '1e3..1e4xtol', or '>=1e4xtol' (gross).
     Part of the fingerprint so that a recorded miss of a few hundred tol cannot mask a gross one of the same
     configuration."""
-    return "1e2..1e3xtol" if ratio < 1e3 else ">=1e3xtol"
+    return "1e2..1e3xtol" if ratio < 1e3 else "1e3..1e4xtol" if ratio < 1e4 else ">=1e4xtol"
 
 
 # ------------------------------------------------------------------------------------------------ case
